@@ -1045,7 +1045,7 @@ def rf66(run):
                     break
                 if e['k'] == 'UnaryOperator' and e['op'] == '*':
                     bt = tu.type(F.strip(e['c'][0]))
-                    if bt is not None and PS.search(bt.s) and 'MIR_insn' not in bt.s and bt.kind == 'pointer':
+                    if bt is not None and PS.search(bt.s) and 'MIR_insn' not in bt.s and bt.kind == 'ptr':
                         hit = (first_field or '*', bt.s)
                     break
                 break
